@@ -123,6 +123,9 @@ func runPortmap(t *testing.T, scAny any, trace bool) *Outcome {
 				args = nil
 			}
 			before := registry()
+			if op.Proc == 4 && len(before) == 0 {
+				simrt.Probe("dump_of_empty_registry")
+			}
 			name := fmt.Sprintf("#%d v%d proc %d from %s", i, op.Vers, op.Proc, addr)
 			rep, err := cl.RawCall(rprog, op.Vers, op.Proc, args)
 			if err != nil {
@@ -273,6 +276,18 @@ func genC27(r *simrt.Rand, tier string) any {
 		sc.Sched = RandSched(r)
 	}
 	progs := []uint32{100003, 100005, 100021, 7}
+	if r.Pct(15) {
+		// empty the registry first (the portmapper's own entries are unset from loopback), then look at it
+		for _, v := range []uint32{2, 3, 4} {
+			for _, pr := range []uint32{6, 17} {
+				sc.Ops = append(sc.Ops, PmOp{From: 0, Vers: 2, Proc: 2, Prog: 100000, PVers: v, Prot: pr, Port: 1})
+			}
+		}
+		for _, v := range []uint32{2, 3, 4} {
+			sc.Ops = append(sc.Ops, PmOp{From: r.Int(len(pmAddrs)), Vers: v, Proc: 4, Prog: 100000, PVers: 2, Prot: 6, Netid: "tcp"})
+		}
+		progs = append(progs, 100000)
+	}
 	n := 5 + r.Int(25)
 	for i := 0; i < n; i++ {
 		op := PmOp{From: r.Int(len(pmAddrs)), Vers: []uint32{2, 2, 3, 4}[r.Int(4)], Proc: uint32(r.Pick([]int{5, 30, 20, 25, 20})), Prog: progs[r.Int(len(progs))],
